@@ -81,7 +81,7 @@ top:
 		if len(da.Type) == 0 { // an unspecialized parameter is specialized on t
 			key = append(key, 't')
 		} else {
-			key = append(key, da.Type...)
+			key = append(key, specializerName(slip.Symbol(da.Type))...)
 		}
 	}
 	aux.moo.Lock()
